@@ -35,6 +35,12 @@ def el(family, cell, deg, shape=None, **kw):
 def mesh(cell, deg=1, gdim=None):
     tdim = {"interval":1,"triangle":2,"quadrilateral":2,"tetrahedron":3,"hexahedron":3,"prism":3,"pyramid":3}[cell]
     return Mesh(el("P", cell, deg, shape=(gdim or tdim,)))
+def tp(cell, deg, shape=None):
+    e = basix.ufl.wrap_element(basix.create_tp_element(basix.ElementFamily.P, getattr(basix.CellType, cell), deg, basix.LagrangeVariant.gll_warped))
+    return e if shape is None else basix.ufl.blocked_element(e, shape=shape)
+def tpmesh(cell):
+    tdim = {"quadrilateral":2,"hexahedron":3}[cell]
+    return Mesh(tp(cell, 1, shape=(tdim,)))
 def space(m, family, deg, shape=None, **kw):
     return FunctionSpace(m, el(family, m.ufl_cell().cellname, deg, shape=shape, **kw))
 '''
@@ -143,17 +149,51 @@ def c_printed(x: float) -> float:
 
 
 class Interner:
+    """C name resolution.  Every *declaration* gets an identifier; a declaration that shadows
+    a visible outer declaration (legal C) gets a fresh identifier, a redeclaration in the
+    same scope gets the same one (so the Coq checker sees the clash), and uses resolve to the
+    innermost visible declaration.  Function parameters live in the outermost scope."""
+
     def __init__(self, lit=None):
-        self.ids = dict(RESERVED)
+        self.ids = dict(RESERVED)          # base id per name
         self.names = {v: k for k, v in RESERVED.items()}
         self.lit = lit or (lambda x: x)
+        self.scopes = [dict(RESERVED)]     # name -> id, innermost last
+        self.shadowed = []                 # (name, outer id, new id)
 
-    def __call__(self, name: str) -> int:
+    def _base(self, name):
         if name not in self.ids:
-            n = len(self.ids) + 1
+            n = len(self.names) + 1
             self.ids[name] = n
             self.names[n] = name
         return self.ids[name]
+
+    def push(self):
+        self.scopes.append({})
+
+    def pop(self):
+        self.scopes.pop()
+
+    def declare(self, name: str) -> int:
+        cur = self.scopes[-1]
+        if name in cur:
+            return cur[name]               # same-scope redeclaration: same id
+        for sc in reversed(self.scopes[:-1]):
+            if name in sc:
+                n = len(self.names) + 1    # shadowing: fresh id
+                self.names[n] = name
+                cur[name] = n
+                self.shadowed.append((name, sc[name], n))
+                return n
+        n = self._base(name)
+        cur[name] = n
+        return n
+
+    def __call__(self, name: str) -> int:
+        for sc in reversed(self.scopes):
+            if name in sc:
+                return sc[name]
+        return self._base(name)            # not declared anywhere visible
 
 
 def dyadic(x: float):
@@ -248,12 +288,15 @@ def conv_stmt(s, itn):
     if t is L.Section:
         decls = [conv_stmt(x, itn) for x in s.declarations]
         if len(s.statements) > 0:
+            itn.push()
             decls.append(("SBlock", [conv_stmt(x, itn) for x in s.statements]))
+            itn.pop()
         return ("SList", decls)
     if t is L.VariableDecl:
         if s.value is None:
             raise Unsupported("VariableDecl without value")
-        return ("SVarDecl", itn(s.symbol.name), _dt(L, s.symbol.dtype), conv_expr(s.value, itn))
+        x = itn.declare(s.symbol.name)     # C: the scope of a declarator starts before its initialiser
+        return ("SVarDecl", x, _dt(L, s.symbol.dtype), conv_expr(s.value, itn))
     if t is L.ArrayDecl:
         if s.values is None:
             raise Unsupported("ArrayDecl without values")
@@ -267,15 +310,20 @@ def conv_stmt(s, itn):
         # model cannot express: require full shape or a single row.
         if tuple(vals.shape) != tuple(sizes) and not (vals.ndim == 1 and len(sizes) == 1):
             raise Unsupported(f"ArrayDecl values shape {vals.shape} vs sizes {sizes}")
-        return ("SArrDecl", itn(s.symbol.name), _dt(L, s.symbol.dtype), sizes, flat,
+        return ("SArrDecl", itn.declare(s.symbol.name), _dt(L, s.symbol.dtype), sizes, flat,
                 bool(s.const))
     if t is L.ForRange:
         if type(s.index) is not L.Symbol:
             raise Unsupported("ForRange index is not a Symbol")
         if type(s.begin) is not L.LiteralInt or type(s.end) is not L.LiteralInt:
             raise Unsupported("ForRange bounds not literal")
-        return ("SFor", itn(s.index.name), int(s.begin.value), int(s.end.value),
-                [conv_stmt(x, itn) for x in s.body.statements])
+        itn.push()                          # scope of the for statement (holds the index)
+        i = itn.declare(s.index.name)
+        itn.push()                          # the body block
+        body = [conv_stmt(x, itn) for x in s.body.statements]
+        itn.pop()
+        itn.pop()
+        return ("SFor", i, int(s.begin.value), int(s.end.value), body)
     if t is L.Statement:
         e = s.expr
         if type(e) is L.Assign:
@@ -307,7 +355,11 @@ def coq_expr(e) -> str:
     if k == "ELitI":
         return f"ELitI {cz(e[1])}"
     if k == "ELitF":
-        return f"ELitF {cz(e[1])} {cz(e[2])}"
+        m, ex = e[1], e[2]
+        if abs(m) < 2 ** 62 and abs(ex) < 2 ** 62:
+            fn = "L" + ("n" if m < 0 else "p") + ("n" if ex < 0 else "p")
+            return f"{fn} {abs(m)}%uint63 {abs(ex)}%uint63"
+        return f"ELitF {cz(m)} {cz(ex)}"
     if k == "ELitC":
         return f"ELitC {cz(e[1])} {cz(e[2])} {cz(e[3])} {cz(e[4])}"
     if k == "ESym":
@@ -442,12 +494,15 @@ def kernel_contract(cap, k):
             con["ne"], con["e_range"] = 1, [0, _n_entities(cell, tdim - 2)]
         else:
             raise Unsupported(f"integral type {it}")
-        if ex.needs_facet_permutations:
+        # ufcx.h: "For interior facets the array will have size 2"; otherwise it may be NULL
+        if it == "interior_facet":
             con["np"], con["p_range"] = 2, [0, _nperm(cell)]
         else:
             con["np"], con["p_range"] = 0, [0, 0]
         con["cell"] = cell
         con["needs_perm"] = bool(ex.needs_facet_permutations)
+        # C03: with the flag false the result must not depend on the permutation argument
+        con["np_flag"] = con["np"] if con["needs_perm"] else 0
     else:
         import ufl
         n = [i for i, e in enumerate(cap.ir.expressions) if e is ir][0]
@@ -485,6 +540,7 @@ def kernel_contract(cap, k):
         else:
             con.update(nx=0, ne=0, e_range=[0, 0], np=0, p_range=[0, 0], cell=None)
         con["needs_perm"] = con["np"] > 0
+        con["np_flag"] = con["np"]
     return con
 
 
